@@ -43,7 +43,16 @@ def gen_grad(rng, method, nd, variant):
     table = rand_table(rng, grids)
     pts = [[interior(rng, g) for g in grids] for _ in range(rng.choice([1, 2, 3]))]
     hs = [min(b - a for a, b in zip(g, g[1:])) / 64 for g in grids]
-    return {'kind': 'grad', 'method': method, 'variant': variant, 'grids': [[pj(v) for v in g] for g in grids],
+    extra = {}
+    if rng.random() < 0.4:
+        # history: the same object is first queried outside the table (extrapolation), then in the end cells
+        pre = [[rng.choice([g[0] - Fr(1, 2), g[-1] + Fr(1, 2), g[-1] + 2]) for g in grids]
+               for _ in range(rng.choice([1, 2]))]
+        pts = [[g[i] + (g[i + 1] - g[i]) * Fr(rng.choice([1, 3, 5, 7]), 8)
+                for g in grids for i in [rng.choice([0, len(g) - 2, rng.randrange(len(g) - 1)])]] for _ in pts]
+        extra = {'history': True, 'pre': [[pj(v) for v in p] for p in pre]}
+    return {**extra,
+            'kind': 'grad', 'method': method, 'variant': variant, 'grids': [[pj(v) for v in g] for g in grids],
             'table': g15.to_json(table), 'pts': [[pj(v) for v in p] for p in pts], 'h': [pj(h) for h in hs],
             'cmp': 'exact' if exact else 'tol'}
 
@@ -86,7 +95,7 @@ class C16(Spec):
     impl_jobs = 4
     rule = ('grids as in C15 (six sign classes, three spacing modes, dimension 1-3); d/dx: points strictly inside '
             'cells (odd eighths), all five methods, general and fixed variants, compared with a 5-point difference '
-            'of the returned values; value gradients: training_gradients / MetaModelStructuredComp(training_data_'
+            'of the returned values, also as histories (same object queried outside the table first, then one call per point); value gradients: training_gradients / MetaModelStructuredComp(training_data_'
             'gradients) for slinear, lagrange2, lagrange3, cubic with tables v, w, a*v+w; evaluate_spline and '
             'SplineComp for slinear, lagrange2, lagrange3, cubic, akima, bsplines; every case distinct')
 
